@@ -380,6 +380,52 @@ fn eval_case_inner(line: &str) -> String {
                 Some(s) => s,
             }
         }
+        "F2MP" => {
+            // F2MP a t d: as F2M, but the frame's data block is one the LIBRARY handed out (taken with into_data from the
+            // frame of every catalogue message at this address whose data equals d, and from a decoded wire frame) instead
+            // of one built from the caller's bytes.  Where a block came from must make no difference.
+            let (a, ty, d): (u16, u8, Vec<u8>) = (num(t[1]), num(t[2]), bytes_of_hex(t[3]));
+            let mut donors: Vec<Message<'static>> = vec![Message::Hello(Address(a)), Message::QueryState(Address(a)), Message::Goodbye(Address(a)), Message::PixelsComplete(Address(a))];
+            for (st, _) in STATES.iter() {
+                donors.push(Message::ReportState(Address(a), *st));
+            }
+            for (op, _) in OPS.iter() {
+                donors.push(Message::RequestOperation(Address(a), *op));
+                donors.push(Message::AckOperation(Address(a), *op));
+            }
+            let plain = guarded(|| {
+                let f = mkframe(a, ty, d.clone(), false);
+                let m = Message::from(f);
+                let s = str_msg(&m);
+                format!("{} {}", s, str_frame(&Frame::from(m)))
+            })
+            .unwrap_or_else(|| "PANIC".to_string());
+            let mut blocks: Vec<(String, Data<'static>)> = vec![];
+            for m in donors {
+                let name = str_msg(&m);
+                if let Some(data) = guarded(|| Frame::from(m).into_data()) {
+                    if data.get().as_ref() == &d[..] {
+                        blocks.push((name, data));
+                    }
+                }
+            }
+            if let Some(Ok(f)) = guarded(|| Frame::from_bytes(&crate::gen::ref_encode(a, 0x42, &d, false))) {
+                blocks.push(("decoded".to_string(), f.into_data()));
+            }
+            for (name, data) in blocks {
+                let got = guarded(|| {
+                    let f = Frame::new(Address(a), MsgType(ty), data.clone());
+                    let m = Message::from(f);
+                    let s = str_msg(&m);
+                    format!("{} {}", s, str_frame(&Frame::from(m)))
+                })
+                .unwrap_or_else(|| "PANIC".to_string());
+                if got != plain {
+                    return format!("{} BUT-WITH-THE-BLOCK-OF {} {}", plain, name, got);
+                }
+            }
+            plain
+        }
         "M2F" => {
             let m = msg_of_str(t[1]);
             match guarded(|| str_frame(&Frame::from(m))) {
